@@ -522,11 +522,11 @@ func c18CheckWriterCore(p *Prog, r *Report, fn *ssa.Function, name string, cfg *
 		return
 	}
 	const (
-		bPublished = 40 + iota // the publishing rename was executed
-		bPrevSet               // prev points at this call's version directory
-		bPrevDone              // prev seen nil, or RemoveAll(*prev) executed
-		bPrevStored            // prev was overwritten
-		bLoopDone              // the loop over the file map ran to its end
+		bPublished  = 40 + iota // the publishing rename was executed
+		bPrevSet                // prev points at this call's version directory
+		bPrevDone               // prev seen nil, or RemoveAll(*prev) executed
+		bPrevStored             // prev was overwritten
+		bLoopDone               // the loop over the file map ran to its end
 	)
 	prevStoreKind := func(in ssa.Instruction) int { // 0 none, 1 = this version dir, 2 = something else
 		st, ok := in.(*ssa.Store)
